@@ -7,8 +7,11 @@ Four drivers, all exhaustive over their bounds, all executing the real lena code
          mc/ref/c16_model.py (exact equality, also for yield_on_remainder).
   word   explicit-state exploration of the fill/request machine: every word over {F, R} up to a
          length bound (F = fill the next value, R = consume request() completely) is executed on a
-         freshly built object (bare FillRequest, FillRequestSeq(pre, FillRequest, post), or
-         Split([FillRequest]) used through its fill/request methods); after every event the real
+         freshly built object (bare FillRequest, FillRequestSeq(pre, FillRequest, post),
+         Split([FillRequest]) used through its fill/request methods, or Zip([FillRequest,
+         FillRequest]) of two equally configured adapters, which leaves the request() generator of
+         its second sequence suspended at its last result: both items of every zipped result are
+         judged like the results of a bare adapter); after every event the real
          object is compared with the model: every call returns within the step budget and raises
          nothing; after every R the concatenated request() results equal run on the values filled so
          far (yield_on_remainder off), fewer than bufsize values remain in the input buffer and the
@@ -24,6 +27,15 @@ Four drivers, all exhaustive over their bounds, all executing the real lena code
   frs    FillRequestSeq(pre, FillRequest(el, n), post, bufsize=m, reset=False, buffer_input=True).run:
          the outer adapter requests after every m fills, i.e. it drives the inner one by the word
          (F^m R)*; equals post(reference on pre(values of the complete outer blocks)).
+
+Method names are an axis of the run and word drivers: every element kind that has a method FillRequest
+takes the name of is also wrapped as mc.ref.c16_model.Renamed and handed over with fill="put",
+request="take", reset_name="clear" - once with nothing under the default names, once with unrelated
+decoy methods under them; the reference drives a plain twin, so the expected results are the same.
+
+Building the driven object and replaying an agreed prefix are judged regions too: an exception of the
+code under test there is a reported violation (no-object-with-fill-and-request,
+history-not-reproducible), never an internal error of the harness.
 """
 import lena.core
 import lena.flow
@@ -36,7 +48,9 @@ from mc.ref import c16_model as M
 ID = "C16"
 LEVEL = "model_checking"
 DESIGN_REF = "DESIGN.md section 5, C16"
-RULE = ("configurations = element kind x bufsize x buffer mode x reset x yield_on_remainder; for each, "
+RULE = ("configurations = element kind x bufsize x buffer mode x reset x yield_on_remainder (x method "
+        "names default / renamed / renamed with decoys under the default names, in the run driver and in "
+        "shorter bare words); for each, "
         "every F/R word up to the length bound is executed on a freshly built real object (a history "
         "is not extended past its first violation) and every flow length / Split bufsize / outer "
         "bufsize of the run, split and frs drivers is executed once; cases are distinct by "
@@ -56,8 +70,17 @@ ASSUMPTIONS = [
     "them also with run), Run(StoreFilled()), Run(callable), and three user run elements (lazy "
     "stateful with reset; yields only the first value without exhausting its block; yields nothing); "
     "no element raises and none raises LenaStopFill",
-    "request() is always consumed completely; reset() is never called by the driver; run() and "
-    "fill()/request() are not mixed on one object",
+    "method names: the six kinds that have fill, request or reset are also given under the names put / "
+    "take / clear (keywords fill, request, reset_name), without and with unrelated methods under the "
+    "default names (decoy fill drops the value, decoy request/compute yield a tagged result, decoy "
+    "reset leaves the data alone); run has no keyword and keeps its name; renamed elements: run "
+    "driver at full bounds, bare F/R words up to the shorter length of describe(), not in Split/frs/zip",
+    "request() is consumed completely by the driver, except for the second adapter of the zip form, "
+    "whose generator lena.flow.Zip leaves suspended after its last result (zip semantics); a request() "
+    "generator abandoned before all its results were taken is outside; reset() is never called by the "
+    "driver; run() and fill()/request() are not mixed on one object",
+    "zip form: two adapters of the same configuration around two elements of the same kind (store, "
+    "sum), so both items of a zipped result must equal the result of a bare adapter",
     "for yield_on_remainder=True the fill/request drivers demand only termination and that every value "
     "is shown (exact results are demanded by the statement 'for yield_on_remainder off' only); the "
     "reading of 'at most one block of buffered values or results' is DESIGN.md R2: after each "
@@ -88,14 +111,16 @@ def run_limit(length):
 
 def _dom(tier):
     if tier == "thorough":
-        return dict(N=6, L=14, Lform=11, run_blocks=4, split_len=4)
-    return dict(N=5, L=12, Lform=9, run_blocks=3, split_len=3)
+        return dict(N=6, L=14, Lform=11, Lnames=10, run_blocks=4, split_len=4)
+    return dict(N=5, L=12, Lform=9, Lnames=8, run_blocks=3, split_len=3)
 
 
 def describe(tier):
     d = _dom(tier)
     return ("bufsize 1..%(N)d; F/R words of length <= %(L)d on a bare FillRequest (<= %(Lform)d through "
-            "FillRequestSeq and Split fill/request); run: flows of length 0..%(run_blocks)d*n+1; split: "
+            "FillRequestSeq, Split fill/request and Zip of two adapters; <= %(Lnames)d for elements with "
+            "renamed methods, without and with decoys); run: flows of length 0..%(run_blocks)d*n+1, all "
+            "three method namings; split: "
             "B in 1..2n+1, 1000, None, flows of length 0..%(split_len)d*max(n,B')+1; frs: outer bufsize "
             "1..2n+1" % d)
 
@@ -108,13 +133,27 @@ def _modes(yor):
     return ("input", "output", "none") if yor else ("input", "output")
 
 
-def configs(kind, n):
+def configs(kind, n, names="default"):
     out = []
     for yor in (False, True):
         for mode in _modes(yor):
             for reset in M.resets_of(kind):
-                out.append({"kind": kind, "n": n, "buffer": mode, "reset": reset, "yor": yor})
+                cfg = {"kind": kind, "n": n, "buffer": mode, "reset": reset, "yor": yor}
+                if names != "default":
+                    cfg["names"] = names
+                out.append(cfg)
     return out
+
+
+def _names(cfg):
+    return cfg.get("names", "default")
+
+
+def _cfg_of_case(case):
+    cfg = {k: case[k] for k in ("kind", "n", "buffer", "reset", "yor")}
+    if case.get("names", "default") != "default":
+        cfg["names"] = case["names"]
+    return cfg
 
 
 def shards(tier):
@@ -133,6 +172,11 @@ def shards(tier):
         for kind in ("store", "sum"):
             for form in ("frs", "split"):
                 out.append({"drv": "word", "form": form, "kind": kind, "n": n})
+            for reset in (True, False):
+                out.append({"drv": "word", "form": "zip", "kind": kind, "n": n, "reset": reset})
+    for n in range(1, d["N"] + 1):
+        for kind in M.FILL_KINDS:
+            out.append({"drv": "word", "form": "bare", "kind": kind, "n": n, "names": True})
     for n in range(1, d["N"] + 1):
         for kind in M.FILL_KINDS:
             for cfg in configs(kind, n):
@@ -147,11 +191,13 @@ def _kw(cfg):
         kw["buffer_input"] = True
     elif cfg["buffer"] == "output":
         kw["buffer_output"] = True
+    if _names(cfg) != "default":
+        kw.update(M.RENAMED_KW)
     return kw
 
 
 def build_fr(cfg):
-    el = M.make_element(cfg["kind"])
+    el, _ = M.make_named_element(cfg["kind"], _names(cfg))
     return lena.core.FillRequest(el, **_kw(cfg)), el
 
 
@@ -169,6 +215,7 @@ class _Target(object):
 
     def __init__(self, cfg, form):
         self.fr, self.el = build_fr(cfg)
+        self.frs, self.els = [self.fr], [self.el]
         self.pre = self.post = None
         if form == "bare":
             drv = self.fr
@@ -178,13 +225,42 @@ class _Target(object):
             self.pre, self.post = _pre, _post
         elif form == "split":
             drv = lena.core.Split([self.fr])
+        elif form == "zip":
+            # two equally configured adapters side by side: Zip is "like Split", it advances the
+            # request() generators of its sequences in turn and stops at the first exhausted one
+            fr2, el2 = build_fr(cfg)
+            self.frs.append(fr2)
+            self.els.append(el2)
+            drv = lena.flow.Zip([self.fr, fr2])
         else:
             raise ValueError(form)
         self.fill = drv.fill
         self.request = drv.request
 
 
+BRANCH_NAMES = ("first", "second")
+
+
+class _Shape(Exception):
+    pass
+
+
+def _per_branch(form, got):
+    """The results of one request() per wrapped adapter: Zip yields tuples, one item per sequence."""
+    if form != "zip":
+        return [got]
+    parts = [[], []]
+    for r in got:
+        if not (isinstance(r, tuple) and len(r) == 2):
+            raise _Shape()
+        parts[0].append(r[0])
+        parts[1].append(r[1])
+    return parts
+
+
 def _el_content(el):
+    if isinstance(el, M.Renamed):
+        return (_el_content(el.wrapped), tuple(el.decoy_calls))
     inner = getattr(el, "_el", None)
     if inner is not None and not callable(inner):
         el = inner
@@ -196,12 +272,14 @@ def _el_content(el):
 
 
 def _state(t, k, cum_len):
-    fr = t.fr
-    bi = getattr(fr, "_buffer_in", None)
-    bo = getattr(fr, "_buffer_out", None)
-    return (k, getattr(fr, "_n_count", None),
-            None if bi is None else repr(list(bi)), None if bo is None else repr(list(bo)),
-            _el_content(t.el), cum_len)
+    out = (k, cum_len)
+    for fr, el in zip(t.frs, t.els):
+        bi = getattr(fr, "_buffer_in", None)
+        bo = getattr(fr, "_buffer_out", None)
+        out += (getattr(fr, "_n_count", None),
+                None if bi is None else repr(list(bi)), None if bo is None else repr(list(bo)),
+                _el_content(el))
+    return out
 
 
 def _buffer_kind(cfg):
@@ -259,66 +337,105 @@ def judge_word(res, cfg, form, word, model, states, samples_limit=2):
     n = cfg["n"]
     case = {"law": "word", "form": form, "kind": cfg["kind"], "n": n, "buffer": cfg["buffer"],
             "reset": cfg["reset"], "yor": cfg["yor"], "word": word}
-    t = _Target(cfg, form)
+    if _names(cfg) != "default":
+        case["names"] = _names(cfg)
+    off, over, first = _word_features(word, n)
+    # everything that touches the code under test is inside a judged region: a failure to build the
+    # object, or one in the replayed prefix, is an observation, not an accident of the harness
+    try:
+        t = _Target(cfg, form)
+    except Exception as e:  # noqa
+        res.case(nontrivial=False, outcome=(form, cfg["kind"], "no-object", type(e).__name__))
+        cause = {"law": "fill-request-word", "form": form, "defect": "no-object-with-fill-and-request",
+                 "exception": type(e).__name__, "kind_class": M.kind_class(cfg["kind"]),
+                 "names": _names(cfg)}
+        res.violation(case, "building the object and taking its fill and request raised %s"
+                      % type(e).__name__, "an object with fill() and request()", cause)
+        return False
+    nb = len(t.frs)
     k = 0
-    cum = []
-    per_request = []
-    for ev in word[:-1]:
-        if ev == "F":
-            t.fill(model.values[k])
-            k += 1
-        else:
-            got = list(t.request())
-            per_request.append(got)
-            cum.extend(got)
+    cum = [[] for _ in range(nb)]
+    per_request = [[] for _ in range(nb)]
+    try:
+        for ev in word[:-1]:
+            if ev == "F":
+                t.fill(model.values[k])
+                k += 1
+            else:
+                for b, part in enumerate(_per_branch(form, list(t.request()))):
+                    per_request[b].append(part)
+                    cum[b].extend(part)
+    except Exception as e:  # noqa
+        res.case(nontrivial=False, outcome=(form, cfg["kind"], "prefix", type(e).__name__))
+        cause = {"law": "fill-request-word", "form": form, "defect": "history-not-reproducible",
+                 "exception": type(e).__name__, "kind_class": M.kind_class(cfg["kind"]),
+                 "names": _names(cfg)}
+        res.violation(case, "a prefix that agreed with the model on a fresh object raised %s when "
+                      "repeated on another fresh object" % type(e).__name__,
+                      "fresh objects behave alike", cause)
+        return False
     res.count("calls_replayed", len(word) - 1)
     ev = word[-1]
     problem = None  # (defect, observed, expected)
+    branch = None
     call = "fill" if ev == "F" else "request"
     got = None
     try:
-        with step_budget(call_limit(k)) as st:
+        with step_budget(call_limit(k) * nb) as st:
             if ev == "F":
                 t.fill(model.values[k])
             else:
                 got = list(t.request())
-        res.maximum("lena_lines_in_one_fill_or_request", st["n"])
-        res.maximum("lena_lines_per_fill_x100", (100 * st["n"]) // (k + 1))
+        res.maximum("lena_lines_in_one_fill_or_request", st["n"] // nb)
+        res.maximum("lena_lines_per_fill_x100", (100 * st["n"]) // (nb * (k + 1)))
     except StepBudgetExceeded:
         problem = ("call-does-not-return", "%s() exceeded the step budget of %d lena lines"
-                   % (call, call_limit(k)), "%s() returns" % call)
+                   % (call, call_limit(k) * nb), "%s() returns" % call)
     except Exception as e:  # noqa
         problem = ("exception", "%s() raised %s" % (call, type(e).__name__), "%s() returns" % call)
     if ev == "F":
         k += 1
     res.transitions += 1
-    off, over, first = _word_features(word, n)
     expected = model.expected_after(k)
     if problem is None and ev == "R":
-        per_request.append(got)
-        cum.extend(got)
-        if not cfg["yor"]:
-            if cum != expected:
-                problem = ("results-differ", {"per_request": per_request}, {"concatenated": expected})
-        else:
-            shown = per_request
-            if form == "frs":
-                shown = [[r[1] for r in g] for g in per_request]
-            problem = _accounting_problem(cfg, model, k, shown)
-        if problem is None:
-            bi = getattr(t.fr, "_buffer_in", None)
-            bo = getattr(t.fr, "_buffer_out", None)
-            if isinstance(bo, list) and bo:
-                problem = ("output-buffer-not-empty-after-request", {"_buffer_out": repr(bo)},
-                           "_buffer_out empty after request()")
-            elif isinstance(bi, list) and len(bi) >= n:
-                problem = ("input-buffer-holds-a-block-after-request", {"_buffer_in": repr(bi)},
-                           "fewer than bufsize values held after request()")
+        try:
+            parts = _per_branch(form, got)
+        except _Shape:
+            problem = ("result-of-another-shape", {"request": repr(got)},
+                       "one tuple per result, one item per zipped adapter")
+            parts = []
+        for b, part in enumerate(parts):
+            per_request[b].append(part)
+            cum[b].extend(part)
+        for b in range(nb if problem is None else 0):
+            if not cfg["yor"]:
+                if cum[b] != expected:
+                    problem = ("results-differ", {"per_request": per_request[b]},
+                               {"concatenated": expected})
+            else:
+                shown = per_request[b]
+                if form == "frs":
+                    shown = [[r[1] for r in g] for g in shown]
+                problem = _accounting_problem(cfg, model, k, shown)
+            if problem is None:
+                bi = getattr(t.frs[b], "_buffer_in", None)
+                bo = getattr(t.frs[b], "_buffer_out", None)
+                if isinstance(bo, list) and bo:
+                    problem = ("output-buffer-not-empty-after-request", {"_buffer_out": repr(bo)},
+                               "_buffer_out empty after request()")
+                elif isinstance(bi, list) and len(bi) >= n:
+                    problem = ("input-buffer-holds-a-block-after-request", {"_buffer_in": repr(bi)},
+                               "fewer than bufsize values held after request()")
+            if problem is not None:
+                branch = b
+                break
     nontrivial = (off or over) and k >= n
+    shown_cum = repr(cum[0]) if nb == 1 else repr(cum)
     res.case(nontrivial=nontrivial,
-             outcome=(cfg["kind"], cfg["reset"], n, repr(cum), problem[0] if problem else None))
+             outcome=(cfg["kind"], cfg["reset"], n, shown_cum, problem[0] if problem else None))
     if problem is None:
-        states.add((form, cfg["kind"], n, cfg["buffer"], cfg["reset"], cfg["yor"]) + _state(t, k, len(cum)))
+        states.add((form, cfg["kind"], n, cfg["buffer"], cfg["reset"], cfg["yor"], _names(cfg))
+                   + _state(t, k, len(cum[0])))
         if ev == "R":
             res.traces += 1
             if nontrivial:
@@ -328,6 +445,12 @@ def judge_word(res, cfg, form, word, model, states, samples_limit=2):
     cause = {"law": "fill-request-word", "form": form, "defect": problem[0], "call": call,
              "kind_class": M.kind_class(cfg["kind"]), "buffer": cfg["buffer"], "reset": cfg["reset"],
              "yield_on_remainder": cfg["yor"], "first_irregularity": first}
+    if _names(cfg) != "default":
+        cause["names"] = _names(cfg)
+    if nb > 1 and branch is not None:
+        # which of the zipped adapters: the first one is consumed to its end, the others are left
+        # suspended at their last result
+        cause["zipped_adapter"] = BRANCH_NAMES[branch]
     res.violation(case, problem[1], problem[2], cause)
     return False
 
@@ -426,13 +549,15 @@ def judge_run(res, cfg, length, with_none=False):
         except Exception as e:  # noqa
             problem = ("exception", "second run() raised %s" % type(e).__name__)
     res.case(nontrivial=length > n, outcome=(kind, n, cfg["reset"], repr(got)))
-    if length > n:
+    if length > n and _names(cfg) == "default":
         res.sample(case, 2)
     if problem is not None:
         cause = {"law": "run", "defect": problem[0], "kind": kind, "reset": cfg["reset"],
                  "buffering": "unused-yield_on_remainder" if cfg["yor"] else cfg["buffer"]}
         if with_none:
             cause["none_among_the_values"] = True
+        if _names(cfg) != "default":
+            cause["names"] = _names(cfg)
         res.violation(case, problem[1], expected, cause)
 
 
@@ -622,11 +747,12 @@ def run_shard(p, tier):
         return res
     if drv == "run":
         n = p["n"]
-        for cfg in configs(p["kind"], n):
-            for length in range(0, d["run_blocks"] * n + 2):
-                judge_run(res, cfg, length)
-                if length and p["kind"] in M.NONE_OK:
-                    judge_run(res, cfg, length, with_none=True)
+        for names in (M.NAMES if p["kind"] in M.RENAMABLE_KINDS else M.NAMES[:1]):
+            for cfg in configs(p["kind"], n, names):
+                for length in range(0, d["run_blocks"] * n + 2):
+                    judge_run(res, cfg, length)
+                    if length and p["kind"] in M.NONE_OK and names == "default":
+                        judge_run(res, cfg, length, with_none=True)
     elif drv == "split":
         n = p["n"]
         for cfg in configs(p["kind"], n):
@@ -645,11 +771,17 @@ def run_shard(p, tier):
                     for length in range(0, d["split_len"] * max(n, m) + 2):
                         judge_frs(res, cfg, m, length)
     elif drv == "word":
-        if p["form"] == "bare":
+        if p.get("names"):
+            for names in M.NAMES[1:]:
+                for cfg in configs(p["kind"], p["n"], names):
+                    explore_words(res, cfg, "bare", d["Lnames"])
+        elif p["form"] == "bare":
             for cfg in p["cfgs"]:
                 explore_words(res, cfg, "bare", d["L"])
         else:
             for cfg in configs(p["kind"], p["n"]):
+                if "reset" in p and cfg["reset"] != p["reset"]:
+                    continue
                 explore_words(res, cfg, p["form"], d["Lform"])
     return res
 
@@ -660,7 +792,7 @@ def replay(case):
     if law == "stopfill":
         judge_stopfill(res, case["n"], case["accepted"], case["reset"], case["buffer"])
         return result_violations(res)
-    cfg = {k: case[k] for k in ("kind", "n", "buffer", "reset", "yor")}
+    cfg = _cfg_of_case(case)
     if law == "word":
         word = case["word"]
         model = _WordModel(cfg, case["form"], len(word))
@@ -682,12 +814,16 @@ def replay(case):
 LEVEL_TEXT = ("explicit-state exploration of the real FillRequest fill/request machine: every F/R history "
               "up to length 12 (thorough: 14) for every (element kind, bufsize 1..5 / 1..6, buffer mode, "
               "reset, yield_on_remainder) is executed on a freshly built object and compared step by step "
-              "with a block reference model that drives a twin of the wrapped element; plus exhaustive "
+              "with a block reference model that drives a twin of the wrapped element (also through "
+              "FillRequestSeq, Split and lena.flow.Zip, up to length 9 / 11, and for elements whose methods "
+              "are given under other names, with and without decoys under the default names, up to "
+              "length 8 / 10); plus exhaustive "
               "enumeration of run() over all flow lengths, of Split(bufsize=B) around a FillRequest "
               "branch for B in 1..2n+1, 1000, None, and of FillRequestSeq.run for outer bufsizes "
               "1..2n+1; a sys.settrace step watchdog turns non-termination into an observation")
-LEVEL_NOTE = ("bounded: histories up to the stated length, bufsize up to 5 (thorough 6), ten element kinds; request() "
-              "always consumed completely; for yield_on_remainder=True under fill/request only termination "
+LEVEL_NOTE = ("bounded: histories up to the stated length, bufsize up to 5 (thorough 6), ten element kinds, "
+              "three method namings; request() consumed completely except by Zip for its second sequence "
+              "(suspended after the last result); for yield_on_remainder=True under fill/request only termination "
               "and value accounting are judged (the statement fixes exact results for "
               "yield_on_remainder off only)")
 TECHNIQUE = ("bounded exhaustive breadth-first exploration of event histories on the real object against "
